@@ -87,6 +87,9 @@ def monoids(rng):
         ("fraction", lambda: F(rng.randint(-5, 5), rng.randint(1, 4)), lambda: F(1)),
         ("mat2", lambda: Mat2(*[rng.randint(-2, 2) for _ in range(4)]), lambda: Mat2(1, 0, 0, 1)),
         ("word", lambda: Word(rng.choice(["a", "ab", ""])), lambda: Word("")),
+        ("mutvec", lambda: MutVec(rng.randint(-3, 3), rng.randint(1, 3)), lambda: MutVec(1, 1)),
+        ("ndarray", lambda: np.array([rng.randint(-3, 3), rng.randint(1, 3)], dtype=object),
+         lambda: np.array([1, 1], dtype=object)),
         ("polynomial", lambda: Polynomial(X, ((0, rng.randint(-2, 2) or 1), (1, rng.randint(1, 2)))),
          lambda: Polynomial(X, ((0, 1),))),
         ("multivector", lambda: MultiVector({0: rng.randint(-1, 2), 1: 1, 6: rng.randint(-2, 2)}, sp),
@@ -94,7 +97,31 @@ def monoids(rng):
     ]
 
 
+class MutVec:
+    """a MUTABLE monoid element (componentwise product) with an in-place multiply, like a numpy
+    array: an operand handed to integer_power must come back untouched"""
+
+    def __init__(self, *c):
+        self.c = list(c)
+
+    def __mul__(self, o):
+        return MutVec(*[a * b for a, b in zip(self.c, o.c)])
+
+    def __imul__(self, o):
+        oc = list(o.c)
+        for i in range(len(self.c)):
+            self.c[i] *= oc[i]
+        return self
+
+    def __repr__(self):
+        return f"MutVec{tuple(self.c)}"
+
+
 def keyof(v):
+    if isinstance(v, MutVec):
+        return ("mutvec", tuple(v.c))
+    if isinstance(v, np.ndarray):
+        return ("ndarray", tuple(v.tolist()))
     if isinstance(v, Polynomial):
         return ("poly", v.data)
     if isinstance(v, MultiVector):
@@ -127,11 +154,16 @@ def c_power(ctx, case):
     want = one_f()
     for _ in range(n):
         want = want * x
+    before = keyof(x)
     try:
         got = integer_power(x, n, one_f())
     except Exception as ex:  # noqa: BLE001
         ctx.fail("C19.power", case, f"raised:{name}:{type(ex).__name__}",
                  f"integer_power({x!r}, {n}) raised {type(ex).__name__}: {ex}")
+        return
+    if keyof(x) != before:
+        ctx.fail("C19.power", case, f"operand-modified:{name}",
+                 f"integer_power(x, {n}) changed its operand from {before} to {keyof(x)}")
         return
     if type(got) is not type(want) or keyof(got) != keyof(want):
         ctx.fail("C19.power", case, f"value:{name}:n={'0' if n == 0 else '1' if n == 1 else 'k'}",
@@ -458,6 +490,48 @@ def c_poly(ctx, case):
                      f"polynomial {S.data} after rewriting u->3 is {getattr(M, 'data', M)}; at x={xv} "
                      f"it evaluates to {short(got)}, expected {want}")
             break
+    _mapped_variants(ctx, case, da, pts)
+
+
+class CoeffSetter(IdentityMapper):
+    def __init__(self, value):
+        self.value = value
+
+    def map_variable(self, e):
+        return self.value if e.name == "u" else e
+
+
+def _mapped_variants(ctx, case, da, pts):
+    """rewrites that change only SOME coefficients -- the highest, the lowest, one in the middle
+    -- to 0 (the term vanishes), 1 or 5; the mapped polynomial must evaluate like the polynomial
+    with that coefficient replaced, and so must its sum and product with 1 + x"""
+    u = p.Variable("u")
+    if len(da) < 2:
+        return
+    one_plus_x = Polynomial(X, ((0, 1), (1, 1)))
+    for which in sorted({0, len(da) - 1, len(da) // 2}):
+        for val in (0, 1, 5):
+            S = Polynomial(X, tuple((e, (c * u if i == which else c)) for i, (e, c) in enumerate(da)))
+            ctx.case(None)
+            ctx.count("poly_mapped_partial")
+            try:
+                M = CoeffSetter(val)(S)
+                derived = [("itself", M), ("+ (1+x)", M + one_plus_x), ("* (1+x)", M * one_plus_x)]
+            except Exception as ex:  # noqa: BLE001
+                ctx.fail("C19.poly", case, f"raised:mapper:{type(ex).__name__}",
+                         f"mapping {S.data} with u->{val} raised {type(ex).__name__}: {ex}")
+                return
+            for xv in pts:
+                base = sum((c * val if i == which else c) * xv ** e for i, (e, c) in enumerate(da))
+                for (tag, obj), want in zip(derived, (base, base + 1 + xv, base * (1 + xv))):
+                    got = refsem.outcome(lambda: sum(refsem.ev(c, {}) * xv ** e for e, c in obj.data)
+                                         if isinstance(obj, Polynomial) else obj)
+                    if got[0] != "v" or got[1] != want:
+                        ctx.fail("C19.poly", case, "mapped-coefficients",
+                                 f"polynomial {S.data} after rewriting u->{val} (coefficient #{which} "
+                                 f"only) is {getattr(M, 'data', M)}; {tag} at x={xv} evaluates to "
+                                 f"{short(got)}, expected {want}")
+                        return
 
 
 @check("C19.quotient")
